@@ -407,7 +407,13 @@ fn apply_parent_ready(
     received: Result<BlockId, oneshot::error::RecvError>,
     parent_block_id: &BlockId,
 ) {
-    let (new_slot, new_hash) = received.expect("ParentReady sender should not be dropped");
+    let Ok((new_slot, new_hash)) = received else {
+        // The sender is dropped when Pool prunes the slot, i.e. the whole window was decided
+        // before any parent became ready for it. Nobody votes on this block anymore,
+        // so finish it on the optimistic parent and move on to our next window.
+        debug!("window was decided before a parent became ready, keeping optimistic parent");
+        return;
+    };
     let (parent_slot, parent_hash) = parent_block_id;
     if &new_hash == parent_hash {
         debug!("parent is ready, continuing with same parent");
